@@ -16,7 +16,7 @@ func (vc *VC) subAddr(st types.Type, fi int, base T) T {
 		vc.declareFun(inv, []Sort{SInt}, SInt)
 		vc.declareFun("addrkind", []Sort{SInt}, SInt)
 		k := vc.eng.addrKind(fn)
-		vc.sigs = append(vc.sigs, fmt.Sprintf("(assert (forall ((b Int)) (! (and (= (%s (%s b)) b) (= (addrkind (%s b)) %d) (< (%s b) 0)) :pattern ((%s b)))))", inv, fn, fn, k, fn, fn))
+		vc.sigs = append(vc.sigs, fmt.Sprintf("(assert (forall ((b Int)) (! (and (= (%s (%s b)) b) (= (addrkind (%s b)) %d) (< (%s b) 0) (= (rootneg (%s b)) (root b))) :pattern ((%s b)))))", inv, fn, fn, k, fn, fn, fn))
 	}
 	return app(SInt, fn, base)
 }
@@ -29,7 +29,7 @@ func (vc *VC) elemAddr(elem types.Type, arr, idx T) T {
 		vc.declareFun(fn+"_idx", []Sort{SInt}, SInt)
 		vc.declareFun("addrkind", []Sort{SInt}, SInt)
 		k := vc.eng.addrKind(fn)
-		vc.sigs = append(vc.sigs, fmt.Sprintf("(assert (forall ((a Int) (i Int)) (! (and (= (%s_arr (%s a i)) a) (= (%s_idx (%s a i)) i) (= (addrkind (%s a i)) %d) (< (%s a i) 0)) :pattern ((%s a i)))))", fn, fn, fn, fn, fn, k, fn, fn))
+		vc.sigs = append(vc.sigs, fmt.Sprintf("(assert (forall ((a Int) (i Int)) (! (and (= (%s_arr (%s a i)) a) (= (%s_idx (%s a i)) i) (= (addrkind (%s a i)) %d) (< (%s a i) 0) (= (rootneg (%s a i)) (root a))) :pattern ((%s a i)))))", fn, fn, fn, fn, fn, k, fn, fn, fn))
 	}
 	return app(SInt, fn, arr, idx)
 }
@@ -312,6 +312,18 @@ func (vc *VC) load(st *State, p Val, typ types.Type) Val {
 		}
 		return vc.loadSlot(st, "Mem_"+typeKey(typ), x, typ)
 	}
+	if sv, ok := p.(*SliceV); ok {
+		// whole-array load through a *[N]T view
+		if at, ok := typ.Underlying().(*types.Array); ok {
+			if ls, ok := leafSort(at.Elem()); ok && structOf(at.Elem()) == nil && sv.Off.S == "0" {
+				key := elemKey(types.Unalias(at.Elem()))
+				a := vc.getGlob(st, key, arrOf(arrOf(ls)))
+				vc.eng.noteGlobSort(key, arrOf(arrOf(ls)))
+				return Sel(a, sv.Arr)
+			}
+		}
+		return vc.freshVal(typ, "arrval")
+	}
 	vc.warn("load through unsupported pointer %T", p)
 	return vc.freshVal(typ, "ld")
 }
@@ -368,6 +380,24 @@ func (vc *VC) store(st *State, p Val, typ types.Type, v Val) {
 			vc.storeSlot(st, "Mem_"+typeKey(typ), x, typ, v)
 			return
 		}
+	}
+	if sv, ok := p.(*SliceV); ok {
+		if at, ok := typ.Underlying().(*types.Array); ok {
+			if ls, ok := leafSort(at.Elem()); ok && structOf(at.Elem()) == nil && sv.Off.S == "0" {
+				key := elemKey(types.Unalias(at.Elem()))
+				a := vc.getGlob(st, key, arrOf(arrOf(ls)))
+				vc.eng.noteGlobSort(key, arrOf(arrOf(ls)))
+				if t, ok := v.(T); ok && t.Sort == arrOf(ls) {
+					st.setGlob(key, Sto(a, sv.Arr, t))
+					return
+				}
+				st.setGlob(key, Sto(a, sv.Arr, vc.fresh("arrval", arrOf(ls))))
+				return
+			}
+		}
+		fr0 := &Frame{x: &Exec{vc: vc, eng: vc.eng}}
+		fr0.havocElems(st, sv)
+		return
 	}
 	vc.warn("store through unsupported pointer %T", p)
 }
